@@ -488,6 +488,23 @@ func (c *checkCtx) runContracts(cov map[string]interface{}) int {
 	for _, k := range sortedKeys(trusted) {
 		tb = append(tb, "assumed contract (trusted, body not verified here): "+k)
 	}
+	// contracts applied at call sites whose functions this check does not verify itself (another property's check does)
+	verifiedHere := map[string]bool{}
+	for _, f := range funcs {
+		if n, ok := f["name"].(string); ok {
+			verifiedHere[strings.TrimPrefix(strings.TrimPrefix(n, "(*"), "(")] = true
+			verifiedHere[n] = true
+		}
+	}
+	var elsewhere []string
+	for _, k := range sortedKeys(ld.eng.contractsUsed) {
+		if !verifiedHere[k] {
+			elsewhere = append(elsewhere, k)
+		}
+	}
+	if len(elsewhere) > 0 {
+		cov["callee_contracts_assumed_here_verified_by_other_checks"] = elsewhere
+	}
 	cov["obligations"] = nOb + asInt(cov["obligations"])
 	cov["discharged"] = nDis + asInt(cov["discharged"])
 	cov["obligation_instances"] = len(obls)
